@@ -360,6 +360,13 @@ def families():
                                  {'a': 'Transfer', 't': 'c'}, {'a': 'Start', 'r': 3, 's': 'c', 'op': 'delete', 'x': '-'},
                                  {'a': 'Lock', 'i': 3}, {'a': 'Propose', 'i': 3, 'x': '-'}, {'a': 'Transfer', 't': 'a'},
                                  {'a': 'Propose', 'i': 2, 'x': 'b'}], set()))
+    # one request delivered to the deposed controller (still subscribed) AND to the new one, the deposed one leads
+    # again later and executes its copy after another client's delete (repaired afee45d: queue subscription)
+    out.append(([{'a': 'Transfer', 't': 'c'}, {'a': 'Start', 'r': 1, 's': 'a', 'op': 'delete', 'x': '-'},
+                 {'a': 'Acquired', 's': 'c'}, {'a': 'Start', 'r': 2, 's': 'b', 'op': 'create', 'x': '-'},
+                 {'a': 'Handle', 'i': 3}, {'a': 'Handle', 'i': 4}, {'a': 'Lock', 'i': 4}, {'a': 'Propose', 'i': 4, 'x': 'b'},
+                 {'a': 'Transfer', 't': 'a'}, {'a': 'Lock', 'i': 1}, {'a': 'Propose', 'i': 1, 'x': '-'},
+                 {'a': 'Lock', 'i': 3}, {'a': 'Propose', 'i': 3, 'x': 'a'}], set()))
     # delete / create meeting each other and a deleted stream meeting an ISR change
     out.append((create(False) + [{'a': 'Start', 'r': 2, 's': 'a', 'op': 'shrink', 'x': 'b'},
                                  {'a': 'Start', 'r': 3, 's': 'b', 'op': 'delete', 'x': '-'}, {'a': 'Handle', 'i': 4},
